@@ -221,17 +221,39 @@ def run_sim(desc):
         prod = StubProduct(dates, stochastic=(mode != "fixed"))
     dates_used = [float(x) for x in (prod.times_grid().grid if desc.get("asian") else dates)]
     eps = desc["eps"] if mode == "maxstep" else None
-    counts = iter(desc["counts"])
-    flat = iter([x for iv in desc["incs"] for x in iv])
+    warm = desc.get("warm")            # an earlier path simulated on the SAME simulator object (its own script), see gen_sim
+    npaths = 2 if warm else 1
+    if warm and mode == "fixed":
+        # fixed dates: the Poisson counts of all paths are drawn interval by interval in pre_computation (levyprocess.py:168-176)
+        counts = iter([c for pair in zip(warm["counts"], desc["counts"]) for c in pair])
+    elif warm:
+        counts = iter(list(warm["counts"]) + list(desc["counts"]))
+    else:
+        counts = iter(desc["counts"])
+    flat = iter(([x for iv in warm["incs"] for x in iv] if warm else []) + [x for iv in desc["incs"] for x in iv])
     coarse_log = []
+
+    def two_paths(sc, simulate, counts_holder=None):
+        """simulate the warm-up path (if any) and then the scripted path on the same object; returns the scripted path"""
+        if not warm:
+            return simulate()
+        sc.d = dict(desc, uniforms=warm["uniforms"])
+        simulate()
+        sc.d = desc
+        if mode != "fixed":                  # variates are drawn on the fly: forget what the warm-up path consumed
+            sc.nz, sc.normals = 0, []
+        sc.k_interval, sc.uni_calls, sc.cu = 0, [], 0
+        coarse_log.clear()
+        return simulate()
+
     with Script(desc) as sc:
         if sim == "direct":
             p = LevyProcess(model)
             p.nb_jump_dt = lambda dt: next(counts)
             p.model.jump_increment = lambda n: np.array([next(flat) for _ in range(n)], float)
             p.initialisation(prod, max_step_epsilon=eps)
-            p.pre_computation(1, prod)
-            path = p.simulate_one_path()
+            p.pre_computation(npaths, prod)
+            path = two_paths(sc, p.simulate_one_path)
             sig = [float(model.diffusion_coefficient())]
         elif sim == "copula":
             g = CTMCUniformGrid.create_from_fixed_nb_of_points(h=desc["h"], nb_of_points=5, dimension=2)
@@ -239,8 +261,8 @@ def run_sim(desc):
             p.nb_jump_dt = lambda dt: next(counts)
             p.sampling.sample = lambda size: [tuple(int(v) for v in next(flat)) for _ in range(size)]
             p.initialisation(prod, max_step_epsilon=eps)
-            p.pre_computation(1, prod)
-            path = p.simulate_one_path()
+            p.pre_computation(npaths, prod)
+            path = two_paths(sc, p.simulate_one_path)
             sig = np.asarray(p._path_simulation.diffusion_matrix, float).real.tolist()
         elif sim == "ctmc":
             g = make_grid(desc)
@@ -248,8 +270,8 @@ def run_sim(desc):
             p.nb_jump_dt = lambda dt: next(counts)
             p.initialisation(prod, max_step_epsilon=eps)
             p._path_simulation._sampling = lambda size: [int(next(flat)) for _ in range(size)]
-            p.pre_computation(1, prod)
-            path = p.simulate_one_path()
+            p.pre_computation(npaths, prod)
+            path = two_paths(sc, p.simulate_one_path)
             sig = [float(p.equivalent_diffusion_coefficient)]
         else:
             g = make_grid(desc)
@@ -270,10 +292,12 @@ def run_sim(desc):
                 return v
             csim.coupling_state = logged
             _real = p.nb_jump_dt
-            cp.pre_computation(1, prod)
-            path = cp.simulate_one_path_with_coupling()
+            cp.pre_computation(npaths, prod)
+            path = two_paths(sc, cp.simulate_one_path_with_coupling)
             sig = [float(cp.equivalent_diffusion_coefficient_fine), float(cp.equivalent_diffusion_coefficient_coarse)]
         normals = list(sc.normals)
+        if warm and mode == "fixed":          # both paths' normals were drawn path by path in pre_computation: keep the second half
+            normals = normals[len(normals) // 2:]
     times = np.asarray(path.jump_times if not hasattr(path.jump_times, "grid") else path.jump_times.grid, float)
     out = dict(times=[float(x) for x in np.asarray(times).reshape(-1)], sig=sig, normals=normals, dates=dates_used)
     out["diff"] = np.atleast_2d(np.asarray(path.diffusion_path, float)).tolist()
@@ -354,6 +378,8 @@ def probe_sim(ctx, desc):
         ctx.fail("oracle", probe + ".raises", desc, {"what": "simulate_one_path raised", "error": f"{type(e).__name__}: {e}"[:300]}, cls=cls)
         return
     ctx.count(probe, desc, nontrivial=njumps > 0, branch=f"{sim}:{mode}:{min(n_dates, 2)}d")
+    if desc.get("warm"):
+        ctx.branches["c15.sim:after_an_earlier_path_on_the_same_object"] += 1
     times, diff, jumps = out["times"], out["diff"], out["jumps"]
     dates = out["dates"]
     T = dates[-1]
@@ -471,6 +497,19 @@ def gen_sim(rng, sim=None, mode=None, n_dates=None):
         desc["copula"] = rng.choice(["independent", "clayton"])
     if mode == "maxstep":
         desc["eps"] = rng.choice([T / 32, T / 16, 3 * T / 32, T / 8, T / 4, T / 2, T, 2 * T])
+    if rng.random() < 0.3:
+        # an earlier, busy path on the same simulator object (every interval jumps): what the scripted path returns must not
+        # depend on it
+        cw = rng.choice([1, 2, 3])
+        wc = [cw] * n_dates
+        if sim == "direct":
+            wi = [[rng.randint(1, 16) / 16 for _ in range(cw)] for _ in wc]
+        elif sim == "copula":
+            wi = [[list(rng.choice(cells)) for _ in range(cw)] for _ in wc]
+        else:
+            wi = [[rng.choice([1, 2, 3, -1, -3]) for _ in range(cw)] for _ in wc]
+        wu = [[u / 64 for u in rng.sample(range(1, 64), cw)] for _ in wc] if mode != "fixed" else [[] for _ in wc]
+        desc["warm"] = dict(counts=wc, incs=wi, uniforms=wu)
     return desc
 
 
